@@ -396,7 +396,15 @@ pub fn run_c17(ctx: &mut Ctx) -> (String, Value, Vec<String>) {
     // that a hardening turns into Ok is a violation, too
     let mut ub = vec![];
     for c in uni_bases(ctx.quick()) {
-        for lim in [LIMIT, 31, 14, 7] {
+        let mut lims = vec![LIMIT, 31, 14, 7];
+        if let Ok(Outcome::Ok(r)) = catch(|| run_uni(&c)) {
+            for l in [r, r + 1, r + 3, 2 * r + 1] {
+                if l > 0 && !lims.contains(&l) {
+                    lims.push(l);
+                }
+            }
+        }
+        for lim in lims {
             let mut x = c.clone();
             x.limit = lim;
             ub.push(x);
